@@ -532,7 +532,7 @@ class StateEngine(object):
         in the ASL Engine at the moment this defensive logic will terminate
         the execution should this situation occur.
         """
-        if next_state == None:
+        if not next_state or not isinstance(next_state, str):
             error_message = ("{} an error occurred while executing the state "
                              "\"{}\": Mandatory \"Next\" field is missing, "
                              "Illegal State Machine."
@@ -2404,9 +2404,11 @@ class StateEngine(object):
             transition was specified. 
             """
             if next_state:
-                self.change_state(
+                error_type, error_message = self.change_state(
                     state_machine, state_type, next_state, event
                 )
+                if error_type:
+                    handle_error(state, error_type, error_message)
             else:
                 message = ("{} the 'Choice' state \"{}\" failed to find a match "
                            "for the condition field extracted from its input.".format(
